@@ -312,11 +312,16 @@ def c04_row(row, conf_text, maps, cfg, what):
             dup = sorted(x for x in set(allq) if allq.count(x) > 1)[0]
             bad("no-double", f"segment {si}: query label {dup} counted {allq.count(dup)} times")
         if rs_paired:
-            miss = [x for x in range(min(rs_paired) + 1, max(rs_paired)) if x not in set(allr)]
+            # "inside the span" is geometric: strictly between the coordinates of the segment's outermost pairs (a label that
+            # coincides with an outermost paired label - twin labels - sits on the boundary, not inside)
+            rlo, rhi = ref["pos"][min(rs_paired) - 1], ref["pos"][max(rs_paired) - 1]
+            qa, qb = qry["pos"][min(qs_paired) - 1], qry["pos"][max(qs_paired) - 1]
+            miss = [x for x in range(min(rs_paired) + 1, max(rs_paired)) if x not in set(allr) and rlo < ref["pos"][x - 1] < rhi]
             if miss:
                 bad("span-complete", f"segment {si}: reference label(s) {miss[:5]} inside the span "
                                      f"{min(rs_paired)}..{max(rs_paired)} are neither paired nor penalised")
-            miss = [x for x in range(min(qs_paired) + 1, max(qs_paired)) if x not in set(allq)]
+            miss = [x for x in range(min(qs_paired) + 1, max(qs_paired)) if x not in set(allq)
+                    and min(qa, qb) < qry["pos"][x - 1] < max(qa, qb)]
             if miss:
                 bad("span-complete", f"segment {si}: query label(s) {miss[:5]} inside the span "
                                      f"{min(qs_paired)}..{max(qs_paired)} are neither paired nor penalised")
